@@ -93,8 +93,26 @@ def outcome_reader_tmp(frame, labelmsm):
         return ("err", type(e).__name__)
 
 
+def outcome_sockreader(frame, labelmsm):
+    """The frame read through a socket-backed reader (a new reader and a new socket every time: reconnects)."""
+    from pyrtcm import RTCMReader
+
+    from vf import doubles
+
+    sock = doubles.ScriptedSocket(frame, [max(1, len(frame) // 2), 2], budget=4 * len(frame) + 64)
+    try:
+        out = []
+        for raw, m in RTCMReader(sock, validate=1, quitonerror=2, labelmsm=labelmsm):
+            out.append(("ok", m.identity, tuple((k, v) for k, v in m.__dict__.items() if not k.startswith("_"))))
+        return out[0] if len(out) == 1 else ("n", len(out))
+    except Exception as e:
+        return ("err", type(e).__name__)
+    finally:
+        sock.close()
+
+
 OPS = {"ctor": outcome_ctor, "parse": outcome_parse, "reader": outcome_reader, "parse_tmp": outcome_parse_tmp,
-       "reader_tmp": outcome_reader_tmp}
+       "reader_tmp": outcome_reader_tmp, "sockreader": outcome_sockreader}
 
 
 def same(a, b):
@@ -120,7 +138,7 @@ def build_corpus(seed, per_identity):
             except refmodel.DefinitionError:
                 break
             lm = rng.choice((1, 2)) if refmodel.is_msm_identity(identity) else 1
-            op = ("ctor", "parse", "reader")[j % 3]
+            op = ("ctor", "parse", "reader", "sockreader")[(j + rng.randrange(2) * 2) % 4]
             data = enc.payload if op == "ctor" else refcrc.frame(enc.payload)
             corpus.append(dict(op=op, data=data, labelmsm=lm, tag=identity, enc=enc, fails=False))
             if j == 0 and len(enc.payload) > 4:
@@ -136,6 +154,34 @@ def build_corpus(seed, per_identity):
                            labelmsm=1, tag=identity, enc=enc, fails=False))
         if corpus[-1]["op"] == "parse":
             corpus[-1]["data"] = refcrc.frame(enc.payload)
+    # ALIASES of defined identities: the body of a valid message under a message number / 4076 sub-type that differs
+    # in one bit and has no definition (a stub is expected), so that defined and undefined neighbours meet in one process
+    defs = set(refmodel.identities())
+    fam = [i for i in ids if i.startswith("4076_")]
+    for identity in fam + rng.sample([i for i in ids if not i.startswith("4076_")], 40):
+        try:
+            enc = refmodel.build(identity, rng, "random", "small", "random")
+        except refmodel.DefinitionError:
+            continue
+        p = enc.payload
+        for _ in range(2):
+            bit = rng.randrange(8 if identity in fam else 12)
+            if identity in fam:
+                sub = int(identity[5:]) ^ (1 << bit)
+                alias = f"4076_{sub:03d}"
+                v = int.from_bytes(p[:3], "big")
+                v = (v & ~(0xFF << 1)) | (sub << 1)
+                q = v.to_bytes(3, "big") + p[3:]
+            else:
+                num = int(identity) ^ (1 << bit)
+                alias = str(num)
+                q = bytes([num >> 4, ((num & 0xF) << 4) | (p[1] & 0x0F)]) + p[2:]
+            if alias in defs or alias == "4076":
+                continue
+            corpus.append(dict(op=rng.choice(("ctor", "parse")), data=q, labelmsm=1, tag="alias:" + alias + "<" + identity,
+                               enc=None, fails=False))
+            if corpus[-1]["op"] == "parse":
+                corpus[-1]["data"] = refcrc.frame(q)
     # readers in raise mode over streams that start with sync-like garbage (state must not leak into the next reader)
     for junk in (b"\xd3\xd3", b"\xd3$", b"\xd3\xb5", b"\xb5\xd3", b"$\xd3", b"\xd3\xff\xd3", b"\xb5\x62\x01"):
         fr = refcrc.frame(streams.rand_defined_payload(rng, "1005"))
